@@ -2,7 +2,7 @@
  * One case per line:   <pos>|<init>|<fmt>|<items>|<args>      (see ocaml/Format_driver.ml)
  *   args: ';'-separated   i<dec> Int | f<16 hex digits: bit pattern> Float | s<hex> String |
  *         p<hex> raw pointer value (only for %p, never dereferenced) |
- *         A<e,e,..> Array  l<e,e,..> List  t<e,e,..> Tuple  (e = i../f../s..) | T<k=v,k=v> Table
+ *         A<e,e,..> Array  l<e,e,..> List  t<e,e,..> Tuple  (e = i../f../s..) | T<k=v,k=v> Table | R<k=v,..> Tree
  *   The k-th argument-consuming item (C.. or D) gets the k-th argument.
  * Transcript (sections separated by " | "):
  *   R:<hex>;<hex>;...      reference text per ITEM, computed with libc only: literal itself, "%" for P,
@@ -26,7 +26,7 @@
 #define MAXI 64
 
 struct Arg {
-  char kind;          /* i f s p A l t T */
+  char kind;          /* i f s p A l t T R */
   int64_t iv; double dv; char* sv; void* pv;
   var obj;            /* the Cello object handed to print_to */
 };
@@ -88,15 +88,15 @@ static void mkarg(char* d, struct Arg* a) {
     while ((tok = next_tok(&s, ',')) != NULL) push(c, mkscalar(tok, &tmp));
     a->obj = c; return;
   }
-  if (d[0] == 'T') {
+  if (d[0] == 'T' || d[0] == 'R') {
     var c = NULL;
     while ((tok = next_tok(&s, ',')) != NULL) {
       char* eq = strchr(tok, '='); if (!eq) continue; *eq = 0;
-      if (!c) c = new_raw(Table, elem_type(tok), elem_type(eq + 1));
+      if (!c) c = new_raw_with(d[0] == 'T' ? Table : Tree, tuple(elem_type(tok), elem_type(eq + 1)));
       struct Arg t2;
       set(c, mkscalar(tok, &tmp), mkscalar(eq + 1, &t2));
     }
-    if (!c) c = new_raw(Table, Int, Int);
+    if (!c) c = new_raw_with(d[0] == 'T' ? Table : Tree, tuple(Int, Int));
     a->obj = c; masked[nmasked++] = c; return;
   }
   a->obj = NULL;
@@ -289,7 +289,7 @@ static void one_case(char* line) {
       struct Item* it = &items[i];
       if (it->kind != 'D' || it->arg < 0 || it->arg >= nargs) continue;
       struct Arg* a = &args[it->arg];
-      if (!strchr("AltT", a->kind)) continue;
+      if (!strchr("AltTR", a->kind)) continue;
       if (!first) P(";");
       first = 0;
       P("%d=", i);
@@ -299,7 +299,7 @@ static void one_case(char* line) {
         if (!fe) P(",");
         fe = 0;
         phex(t, n);
-        if (a->kind == 'T') { P("3a"); t = show_text(get(a->obj, e), &n); phex(t, n); }
+        if (a->kind == 'T' || a->kind == 'R') { P("3a"); t = show_text(get(a->obj, e), &n); phex(t, n); }
       }
     }
   }
